@@ -14,7 +14,7 @@ import (
 // C13 — DH and factorisation checks accept exactly the specification's inputs.
 func init() {
 	register("C13", []string{"crypto"}, func(c *engine.Ctx) {
-		c.Explain("C13: (R1) CheckGP evaluated abstractly for g ∈ {-1..9} × residue test ∈ {true,false}: accepts exactly g ∈ {2,3,5,6,7} with a passing residue test and g = 4 unconditionally; the (modulus, residues) passed to checkSubgroup equal the specification table {2:(8,{7}), 3:(3,{2}), 5:(5,{1,4}), 6:(24,{19,23}), 7:(7,{3,5,6})}; checkSubgroup returns true only under p mod divider == an expected residue. (R2, exhaustive 9 classes) InRange(x,min,max) ⇔ min < x < max. (R3) CheckDHParams applies InRange to (g,1,p-1), (g_a,1,p-1), (g_b,1,p-1), (g_a,2^1984,p-2^1984), (g_b,2^1984,p-2^1984), each rejecting on false. (R4) CheckDH rejects BitLen != 2048; checkPrime tests p and (p-1)/2. (R5) DecomposePQ swaps its results exactly when p > q.")
+		c.Explain("C13: (R1) CheckGP evaluated abstractly for g ∈ {-1..9} × residue test ∈ {true,false}: accepts exactly g ∈ {2,3,5,6,7} with a passing residue test and g = 4 unconditionally; the (modulus, residues) passed to checkSubgroup equal the specification table {2:(8,{7}), 3:(3,{2}), 5:(5,{1,4}), 6:(24,{19,23}), 7:(7,{3,5,6})}; checkSubgroup returns true only under p mod divider == an expected residue. (R2, exhaustive 9 classes) InRange(x,min,max) ⇔ min < x < max. (R3, exhaustive over order classes; assumption 2^2047 <= p < 2^2048, which CheckDH enforces and which fixes the order of the bounds) every bound CheckDHParams compares g, g_a, g_b with is evaluated to a*p+k, each of the three is placed in every position relative to the bounds (below, equal, between, ... : 9^3 classes for the four specified bounds), the function is run abstractly in every class with InRange answered from R2, and the verdict must be: accepted exactly when g is strictly inside (1,p-1) and g_a, g_b are strictly inside (1,p-1) and (2^1984,p-2^1984); a violation names the class. (R4) CheckDH rejects BitLen != 2048; checkPrime tests p and (p-1)/2. (R5) DecomposePQ swaps its results exactly when p > q.")
 		c.NotCover("Pollard-rho correctness/termination; Miller-Rabin; big.Int arithmetic")
 		c13R1(c)
 		c13R2(c)
